@@ -559,6 +559,27 @@ def run(ctx):
             else:
                 r7.fail(key, "writes into the caller's sheet data", w2j.loc(node))
     fresh_rows_obligations(ctx, r7, "C14.R7")
+    # the definition's byte stream may be the caller's own BytesIO / open file (it is passed through as it is): a reader
+    # reads it, and neither closes nor truncates it - the same object is converted again by the caller
+    n_streams = 0
+    for fi in funcs:
+        defs = {t.id for x in walk_own(fi.node) if isinstance(x, ast.Assign) and isinstance(x.value, ast.Call) and call_name(x.value) == "get_definition_data" for t in x.targets if isinstance(t, ast.Name)}
+        if not defs:
+            continue
+        aliases_ = set()
+        for x in walk_own(fi.node):
+            if isinstance(x, ast.Assign) and isinstance(x.value, ast.Attribute) and x.value.attr == "data" and isinstance(x.value.value, ast.Name) and x.value.value.id in defs:
+                aliases_ |= {t.id for t in x.targets if isinstance(t, ast.Name)}
+        n_streams += 1
+        bad = []
+        for c in walk_own(fi.node):
+            if isinstance(c, ast.Call) and isinstance(c.func, ast.Attribute) and c.func.attr in ("close", "truncate", "write", "detach"):
+                rv = c.func.value
+                if (isinstance(rv, ast.Attribute) and rv.attr == "data" and isinstance(rv.value, ast.Name) and rv.value.id in defs) or (isinstance(rv, ast.Name) and rv.id in aliases_):
+                    bad.append(c)
+        r7.check(not bad, f"{fi.fq}:definition stream", "the reader leaves the definition's stream open and as it was", fi.loc(bad[0]) if bad else fi.loc(),
+                 why_fail=f"{[norm(b)[:40] for b in bad]}: a caller-supplied BytesIO is unusable for the next conversion")
+    r7.check(n_streams >= 4, "definition stream census", f"{n_streams} functions that obtain a definition stream examined", "pyxform/xls2json_backends.py")
     ctv = ctx.func("pyxform.xls2json:clean_text_values", "C14.R7")
     for wkind, tgt, node in writes_in(ctv.node):
         if wkind == "store":
@@ -566,6 +587,10 @@ def run(ctx):
             idem = "row_number" in val or ("sub(" in val)
             r7.check(idem, f"clean_text_values:{norm(node)[:50]}", "in-place clean-up of the caller's rows is idempotent (normalised text / deterministic row number)", ctv.loc(node))
     rules.append(r7)
+    # the same holds for the definition dict the builder builds from (ConvertResult._pyxform, a loaded JSON form): shared
+    # with C16.R9
+    from .c16 import builder_input_rule
+    rules.append(builder_input_rule(ctx, "C14", "C14.R8"))
     return rules
 
 
